@@ -169,16 +169,17 @@ impl Tokenizer<'_> {
             self.next_char()?;
             first_char = false;
         }
+        let span = Span::new(self.file_id, start_pos, (self.line, self.pos));
         if is_int && output != "-" {
-            Some(Token::Integer {
-                span: Span::new(self.file_id, start_pos, (self.line, self.pos)),
-                value: output.parse::<i64>().unwrap(),
-            })
-        } else if is_float {
-            Some(Token::Float {
-                span: Span::new(self.file_id, start_pos, (self.line, self.pos)),
-                value: output.parse::<f64>().unwrap(),
-            })
+            match output.parse::<i64>() {
+                Ok(value) => Some(Token::Integer { span, value }),
+                Err(_) => Some(Token::ParserError(ParserError::syntax_error(
+                    format!("Integer literal out of range: {}", output),
+                    span,
+                ))),
+            }
+        } else if let (true, Ok(value)) = (is_float, output.parse::<f64>()) {
+            Some(Token::Float { span, value })
         } else {
             Some(Token::Ident {
                 span: Span::new(self.file_id, start_pos, (self.line, self.pos)),
@@ -373,7 +374,12 @@ impl Parser<'_, '_> {
         let _ = self.tokenizer.next();
 
         if got_dot {
-            let next = self.parse_value()?.unwrap();
+            let Some(next) = self.parse_value()? else {
+                return Err(
+                    Error::new(ErrorKind::ParsingError, "Unexpected EOF".to_string())
+                        .with_trace(TulispObject::nil().with_span(Some(start_span))),
+                );
+            };
             if let Some(Token::CloseParen { span: end_span }) = self.tokenizer.next() {
                 inner.with_span(Some(Span {
                     file_id: self.file_id,
